@@ -114,6 +114,59 @@ let () =
            | 'a' -> OAcquire g | 'd' -> ODone (g, v) | 'c' -> OCancelF g | 'r' -> OReadClosed (g, v)
            | 'x' -> OCtxDone g | _ -> failwith "once event") in
          Printf.printf "%s %s\n" id (if once_accepts evs then "ACCEPT" else "REJECT")
+       | "J" ->
+         (* J <flavour> <oauth2> ncred {<host> <UPRA>}* np {ptable}* <host> <body> nh <hex>* ng <hex>*
+              <osch> <otok1> n2 {<hexkey> <tok>}* nans <ans>*
+            one Client.Do call of a concurrent mix, with what the cache told it (Model/AuthConc.v) *)
+         let fl = (match next () with "none" -> FNone | "shared" -> FShared | "single" -> FSingle | _ -> failwith "flavour") in
+         let oauth2 = (next () = "1") in
+         let ncred = next_int () in
+         let creds = next_n ncred (fun () ->
+           let h = n_of_int (next_int ()) in
+           let f = next () in
+           (h, { c_user = f.[0] = '1'; c_pass = f.[1] = '1'; c_refresh = f.[2] = '1'; c_access = f.[3] = '1' })) in
+         let key k = List.map (fun c -> n_of_int (Char.code c)) (List.init (String.length k) (String.get k)) in
+         let np = next_int () in
+         let ptable = next_n np (fun () ->
+           let hdr = str_of_hex (next ()) in
+           let sch = (match next () with "basic" -> SchBasic | "bearer" -> SchBearer | _ -> SchUnknown) in
+           let realm = str_of_hex (next ()) in
+           let service = str_of_hex (next ()) in
+           let scope = str_of_hex (next ()) in
+           (hdr, (sch, [(key "realm", realm); (key "service", service); (key "scope", scope)]))) in
+         let h = n_of_int (next_int ()) in
+         let body = (match next () with "none" -> BNone | "rewind" -> BRewindable | "once" -> BOnce | _ -> failwith "body") in
+         let hh = next_strs () in
+         let gh = next_strs () in
+         let secret_of t =
+           let rest = String.sub t 1 (String.length t - 1) in
+           (match t.[0] with
+            | 'B' -> SBasicTok (n_of_int (int_of_string rest))
+            | 'A' -> SAccess (n_of_int (int_of_string rest))
+            | 'I' -> (match String.split_on_char '.' rest with
+                      | [a; b] -> SIssued (n_of_int (int_of_string a), n_of_int (int_of_string b))
+                      | _ -> failwith "secret")
+            | _ -> failwith "secret") in
+         let opt_secret t = if t = "-" then None else Some (secret_of t) in
+         let osch = (match next () with "basic" -> Some SchBasic | "bearer" -> Some SchBearer | "unknown" -> Some SchUnknown | _ -> None) in
+         let otok1 = opt_secret (next ()) in
+         let n2 = next_int () in
+         let tbl2 = next_n n2 (fun () -> let k = str_of_hex (next ()) in let t = opt_secret (next ()) in (k, t)) in
+         let otok2 k = (try List.assoc k tbl2 with Not_found -> None) in
+         let nans = next_int () in
+         let script = next_n nans (fun () -> parse_answer (next ())) in
+         let rq = { rq_host = h; rq_hints_host = hh; rq_hints_global = gh; rq_body = body } in
+         let cf = { cf_flavour = fl; cf_oauth2 = oauth2; cf_creds = lookup_cred creds } in
+         if List.exists (unjudged_header ptable) script then Printf.printf "%s UNJUDGED\n" id else
+         let ((evs, op), r) = do_request_rd clean_scopes (parse_with ptable) cf rq osch otok1 otok2 script in
+         if r = RBad then Printf.printf "%s UNJUDGED\n" id else
+         let ops = (match op, fl with
+           | _, FNone | None, _ -> ""
+           | Some ((s, k), v), _ ->
+             Printf.sprintf " +%s:%s:%s" (match s with SchBasic -> "basic" | SchBearer -> "bearer" | SchUnknown -> "unknown")
+               (hex_of_str k) (show_secret v)) in
+         Printf.printf "%s %s%s\n" id
+           (String.concat " " (List.map (fun (s, _) -> show_send s) evs @ [show_result r])) ops
        | "OS" ->
          (* OS nev ev* : the visible events of an Once execution (a<g> f starts, c<g> f ends cancelled,
             d<g>.<v> f ends with a result, r<g>.<v> result received, x<g> gave up), replayed on the slot
